@@ -5,7 +5,7 @@
     (step.c scanning primitives), over Map/MapModel.v (C10) and Xlat/Step.v (C02). *)
 From Coq Require Import NArith ZArith List Bool Lia.
 From KdV Require Import Base.Wrap64 Map.MapModel Map.MapSpec Xlat.Step Xlat.ArchSpec
-  Sys.LayoutModel Sys.LayoutSpec Sys.LayoutProofs.
+  Sys.LayoutModel Sys.LayoutSpec Sys.LayoutProofs Sys.ScanModel Sys.LinuxX86Model Sys.LinuxX86Proofs.
 Import ListNotations.
 Local Open Scope N_scope.
 
@@ -57,6 +57,99 @@ Theorem C08_set_layout_regions : forall idx, idx <> MAP_KPHYS_DIRECT ->
 Proof. exact sys_set_layout_denote. Qed.
 Print Assumptions C08_set_layout_regions.
 
+(** * Scanning primitives
+
+    Partial: what is proved about [highest_linear] is that a successful answer
+    was preceded by the offset test at the first mapped address; the full
+    specifications ("least / greatest mapped address in the range or
+    NOTPRESENT", Sys/ScanSpec.v) are evaluated on the implementation and on
+    the model by the correspondence check, not proved. *)
+Theorem C08_scan_highest_linear_tests_offset_partial :
+  forall readmem m pf kv fuel lf addr limit off e,
+  highest_linear readmem m pf kv fuel lf addr limit off = (OK, e) ->
+  exists s n p, lowest_mapped readmem m pf lf addr limit = (OK, s, n) /\
+                kv n = (OK, p) /\ wsub p n = off.
+Proof. exact highest_linear_ok. Qed.
+Print Assumptions C08_scan_highest_linear_tests_offset_partial.
+
+(** * x86-64 Linux set-up decisions ([kv2kphys img s a] is what the page tables
+      of the image, plus machphys -> kphys, say about [a] in state [s])
+
+    Partial: layout/decision level.  The statements are about the regions and
+    offsets the model of x86_64.c chooses, under the hypothesis that the image
+    is linear where the library looks (the property's "images laid out the way
+    the supported kernels lay out memory"); that the scans find the whole
+    region of such an image is checked on synthesised images, not proved. *)
+
+(** whenever [linux_directmap_by_pgt] finds a region, the offset [-first] was
+    seen in the page tables: at [first] itself (fixed old locations), or at the
+    first mapped address the scan found *)
+Theorem C08_x86_64_linux_directmap_witness : forall img hl_fuel s first last,
+  linux_directmap_by_pgt img hl_fuel s = (OK, (first, last)) ->
+  (first = DM_START_2_6_0 /\ vtop_pgt img s first = (OK, 0)) \/
+  (first = DM_START_2_6_11 /\ vtop_pgt img s first = (OK, 0)) \/
+  (exists st n p limit, s_lowest_mapped img s first limit = (OK, st, n) /\
+                        kv2kphys img s n = (OK, p) /\ wsub p n = wsub 0 first).
+Proof. exact directmap_by_pgt_witness. Qed.
+Print Assumptions C08_x86_64_linux_directmap_witness.
+
+(** on an image that is linear on a set [inside] of addresses (containing the
+    start of the region and what the scan looked at), every address of the set
+    that the page tables map is sent by the direct method ([off = -first]) to
+    the physical address the page tables give it *)
+Theorem C08_x86_64_linux_agree_partial : forall img hl_fuel s first last inside,
+  linux_directmap_by_pgt img hl_fuel s = (OK, (first, last)) ->
+  first < 2^64 ->
+  linear_on img s inside ->
+  inside first = true ->
+  (vtop_pgt img s first = (OK, 0) -> kv2kphys img s first = (OK, 0)) ->
+  (forall st n limit, s_lowest_mapped img s first limit = (OK, st, n) -> inside n = true /\ n < 2^64) ->
+  forall a p, inside a = true -> a < 2^64 -> p < 2^64 -> kv2kphys img s a = (OK, p) ->
+  lin (neg_u64 first) a = p.
+Proof. exact directmap_by_pgt_agrees. Qed.
+Print Assumptions C08_x86_64_linux_agree_partial.
+
+(** [linux_directmap] installs that region: MAP_KV_PHYS sends exactly
+    [first, last] to the direct method (linear, [off = -first]), MAP_KPHYS_DIRECT
+    sends exactly [0, last - first] to the reverse direct method ([off = first]) *)
+Theorem C08_x86_64_linux_directmap_installs : forall img hl_fuel s first last,
+  wf_sys s -> first <= last -> last < 2^64 -> first <> 2^63 ->
+  linux_directmap_by_pgt img hl_fuel s = (OK, (first, last)) ->
+  exists s', linux_directmap img hl_fuel s = (O_ST OK, s') /\
+    get_meth s' METH_DIRECT = mk_linear KPHYSADDR (neg_u64 first) /\
+    get_meth s' METH_RDIRECT = mk_linear KVADDR (- neg_u64 first)%Z /\
+    (forall x, mdenote (get_map s' MAP_KV_PHYS) x =
+               if (first <=? x) && (x <=? last) then Z.of_nat METH_DIRECT
+               else mdenote (get_map s MAP_KV_PHYS) x) /\
+    (forall x, mdenote (get_map s' MAP_KPHYS_DIRECT) x =
+               if x <=? last - first then Z.of_nat METH_RDIRECT else NONE).
+Proof. exact linux_directmap_installs. Qed.
+Print Assumptions C08_x86_64_linux_directmap_installs.
+
+(** the kernel text offset is [phys_base - __START_KERNEL_map] when the option
+    is given, else the offset the page tables give at [_stext] / [_text] / the
+    lowest mapped address of the text window *)
+Theorem C08_x86_64_linux_ktext_offset : forall img s s',
+  sym_stext img <> CbErr OK -> sym_text img <> CbErr OK ->
+  linux_ktext_meth img s = (OK, s') ->
+  exists off, s' = set_ktext_offset s off /\
+    (match i_phys_base img with
+     | Some pb => off = wsub pb LINUX_KTEXT_START
+     | None => exists v p, off = wsub p v /\
+                 (vtop_pgt img s v = (OK, p) \/
+                  exists st, s_lowest_mapped img s LINUX_KTEXT_START LINUX_KTEXT_END = (OK, st, v) /\
+                             fulladdr_conv img s (s_as st, s_base st) KPHYSADDR = (OK, p))
+     end).
+Proof. exact ktext_meth_offset. Qed.
+Print Assumptions C08_x86_64_linux_ktext_offset.
+
+(** ... so where the text mappings have one offset, the method agrees with them *)
+Theorem C08_x86_64_linux_ktext_agree_partial : forall koff a p v q,
+  a < 2^64 -> p < 2^64 -> wsub p a = koff -> wsub q v = koff ->
+  lin (s64 (wsub q v)) a = p.
+Proof. exact ktext_linear_agrees. Qed.
+Print Assumptions C08_x86_64_linux_ktext_agree_partial.
+
 (** the hypotheses are satisfiable: the x86-64 Linux 2.6.31 direct mapping *)
 Example C08_nonvacuous_layout :
   let r := {| r_first := 0xffff880000000000; r_last := 0xffffc7ffffffffff;
@@ -73,3 +166,40 @@ Proof.
   - repeat split; cbn; try lia; try discriminate. unfold METH_DIRECT, METH_NUM. lia.
   - eexists. split; [vm_compute; reflexivity|]. vm_compute. repeat split.
 Qed.
+
+(** a small 4-level image: 4M of RAM mapped at 0xffff880000000000 with 2M pages,
+    kernel text at 0xffffffff81000000 (phys_base 0), root table at physical 0x1000;
+    the initialisation finds both, and the direct method agrees with the tables *)
+Definition ex_raw (a : aspace) (x : N) : rdres :=
+  match a with
+  | MACHPHYSADDR =>
+    if x =? 0x1000 + 8 * 272 then RdOk (0x2000 + 0x67) else           (* PML4[272] -> direct map PDPT *)
+    if x =? 0x2000 then RdOk (0x3000 + 0x67) else                     (* PDPT[0] -> PD *)
+    if x =? 0x3000 then RdOk (0x000000 + 0x1e3) else                  (* 2M pages *)
+    if x =? 0x3008 then RdOk (0x200000 + 0x1e3) else
+    if x =? 0x1000 + 8 * 511 then RdOk (0x4000 + 0x67) else           (* PML4[511] -> text PDPT *)
+    if x =? 0x4000 + 8 * 510 then RdOk (0x5000 + 0x67) else
+    if x =? 0x5000 + 8 * 8 then RdOk (0x1000000 + 0x1e3) else         (* 0xffffffff81000000 -> 0x1000000 *)
+    if (0x1000 <=? x) && (x <? 0x6000) then RdOk 0 else RdErr NODATA
+  | _ => RdErr NODATA
+  end.
+Definition ex_img : image :=
+  {| i_os := OS_LINUX; i_version := None; i_phys_base := None; i_rootpgt := Some (MACHPHYSADDR, 0x1000);
+     i_virt_bits := Some 48; i_xen_xlat := None;
+     sym_init_top_pgt := CbErr NODATA; sym_init_level4_pgt := CbErr NODATA;
+     sym_stext := CbOk 0xffffffff81000000; sym_text := CbErr NODATA; sym_page_offset_base := CbErr NODATA;
+     reg_cr3 := CbErr NODATA; reg_cr4 := CbErr NODATA; num_sme_mask := CbErr NODATA;
+     num_pgtable_l5_enabled := CbErr NODATA;
+     caps_kphys := false; caps_machphys := true; caps_kv := false; raw := ex_raw |}.
+
+Example C08_nonvacuous_x86_64_linux :
+  exists s, sys_x86_64 ex_img 64 = (O_ST OK, s) /\
+    lin_off (get_meth s METH_DIRECT) = 0x780000000000%Z /\
+    lin_off (get_meth s METH_KTEXT) = 0x80000000%Z /\
+    mdenote (get_map s MAP_KV_PHYS) 0xffff8800003fffff = Z.of_nat METH_DIRECT /\
+    mdenote (get_map s MAP_KV_PHYS) 0xffff880000400000 = Z.of_nat METH_PGT /\
+    mdenote (get_map s MAP_KV_PHYS) 0xffffffff81000000 = Z.of_nat METH_KTEXT /\
+    xlat_via ex_img s MAP_KV_PHYS KPHYSADDR 0xffff880000212345 = (OK, 0x212345) /\
+    xlat_via ex_img s MAP_HW KPHYSADDR 0xffff880000212345 = (OK, 0x212345) /\
+    xlat_via ex_img s MAP_KPHYS_DIRECT KVADDR 0x212345 = (OK, 0xffff880000212345).
+Proof. eexists. split; [vm_compute; reflexivity|]. vm_compute. repeat split. Qed.
